@@ -14,14 +14,19 @@
 package c04
 
 import (
+	"bufio"
+	"bytes"
 	"context"
+	"encoding/json"
 	"errors"
 	"fmt"
 	"math"
 	"os"
+	"os/exec"
 	"sort"
 	"strconv"
 	"strings"
+	"syscall"
 	"testing"
 	"time"
 
@@ -454,6 +459,8 @@ func nrToRaw(r *ctypes.NodeResource) map[string]any {
 }
 
 type planCase struct {
+	isolate bool         // run in a child process with a memory cap
+	pre     *planOutcome // its outcome there
 	info    *ctypes.NodeResourceInfo
 	origin  ctypes.CPUMap
 	base    int
@@ -499,7 +506,141 @@ func tagsOfNode(info *ctypes.NodeResourceInfo, base int, cpu float64, mem int64)
 	}
 }
 
+// ---------- isolated runs: huge requests ----------
+//
+// A request for billions of cores must simply yield no plan.  An implementation
+// that sizes an allocation by the request would take the whole harness down
+// (Go's "out of memory" is fatal, not a panic), so such cases run
+// GetCPUPlans in a child process (this test binary, VERIF_CHILD=1) whose address
+// space is capped at childMemLimit; a crash of the child is an observed outcome.
+
+const childMemLimit = 6 << 30
+
+type childIn struct {
+	Info    *ctypes.NodeResourceInfo
+	Origin  ctypes.CPUMap
+	Base    int
+	MaxFrag int
+	CPU     float64
+	Mem     int64
+}
+type childOut struct {
+	Plans []*ctypes.CPUPlan
+	Panic string
+}
+
+func runChild() {
+	_ = syscall.Setrlimit(syscall.RLIMIT_AS, &syscall.Rlimit{Cur: childMemLimit, Max: childMemLimit})
+	var ins []childIn
+	if err := json.NewDecoder(os.Stdin).Decode(&ins); err != nil {
+		fmt.Fprintln(os.Stderr, "child: bad input:", err)
+		os.Exit(3)
+	}
+	for i, in := range ins {
+		out := childOut{}
+		func() {
+			defer func() {
+				if r := recover(); r != nil {
+					out.Panic = fmt.Sprint(r)
+				}
+			}()
+			req := &ctypes.WorkloadResourceRequest{CPUBind: true, CPURequest: in.CPU, CPULimit: in.CPU, MemRequest: in.Mem, MemLimit: in.Mem}
+			out.Plans = schedule.GetCPUPlans(in.Info, in.Origin, in.Base, in.MaxFrag, req)
+		}()
+		b, _ := json.Marshal(out)
+		fmt.Printf("CHILD-RESULT %d %s\n", i, b)
+	}
+	os.Exit(0)
+}
+
+var selfExe string
+
+type planOutcome = outcome[[]*ctypes.CPUPlan]
+
+// isolatedBatch runs the cases one after the other in a child process; when the
+// child crashes or stalls at a case, that is the case's outcome and a new child
+// takes over the rest.
+func isolatedBatch(cs []planCase) []planOutcome {
+	res := make([]planOutcome, len(cs))
+	for start := 0; start < len(cs); {
+		ins := make([]childIn, 0, len(cs)-start)
+		for _, c := range cs[start:] {
+			ins = append(ins, childIn{Info: c.info, Origin: c.origin, Base: c.base, MaxFrag: c.maxFrag, CPU: c.cpu, Mem: c.mem})
+		}
+		in, _ := json.Marshal(ins)
+		cmd := exec.Command(selfExe, "-test.run=^TestSched$")
+		cmd.Env = append(os.Environ(), "VERIF_CHILD=1")
+		cmd.Stdin = bytes.NewReader(in)
+		var stderr bytes.Buffer
+		cmd.Stderr = &stderr
+		pipe, err := cmd.StdoutPipe()
+		if err != nil || cmd.Start() != nil {
+			panic("harness: cannot start child process")
+		}
+		lines := make(chan string, 16)
+		go func() {
+			sc := bufio.NewScanner(pipe)
+			sc.Buffer(make([]byte, 1<<20), 64<<20)
+			for sc.Scan() {
+				lines <- sc.Text()
+			}
+			close(lines)
+		}()
+		done := 0 // results received from this child
+		stalled := false
+	loop:
+		for {
+			wait := 10 * deadline
+			if done == 0 {
+				wait = 30 * deadline // start-up of the test binary
+			}
+			select {
+			case line, ok := <-lines:
+				if !ok {
+					break loop
+				}
+				if strings.HasPrefix(line, "CHILD-RESULT ") {
+					parts := strings.SplitN(line, " ", 3)
+					var out childOut
+					if len(parts) == 3 && json.Unmarshal([]byte(parts[2]), &out) == nil {
+						res[start+done] = planOutcome{val: out.Plans, panicMsg: out.Panic}
+						done++
+					}
+				}
+			case <-time.After(wait):
+				stalled = true
+				_ = cmd.Process.Kill()
+				break loop
+			}
+		}
+		_ = cmd.Wait()
+		if start+done >= len(cs) {
+			break
+		}
+		// the child died or stalled while working on case start+done
+		if stalled {
+			res[start+done] = planOutcome{timeout: true}
+		} else {
+			msg := "child crashed"
+			if i := strings.Index(stderr.String(), "fatal error:"); i >= 0 {
+				msg = strings.SplitN(stderr.String()[i:], "\n", 2)[0]
+			}
+			res[start+done] = planOutcome{panicMsg: msg}
+		}
+		start += done + 1
+	}
+	return res
+}
+
+// hugeRequests: finite positive requests far beyond any node (still valid requests).
+var hugeRequests = []float64{1e9, 2147483648, 2147483648.5, 4294967296, 1e10, 1e12, 3e13, 4e13, 9007199254740992, 1e15,
+	9e16, 92233720368547758, 9.2e18, 1e300}
+
 func TestSched(t *testing.T) {
+	if os.Getenv("VERIF_CHILD") == "1" {
+		runChild()
+	}
+	selfExe, _ = os.Executable()
 	if os.Getenv("VERIF_OUT") == "" {
 		t.Skip("VERIF_OUT not set; run through /verif/check")
 	}
@@ -583,9 +724,15 @@ func runPlans(t *testing.T) {
 				origin[k] = v
 			}
 		}
-		o := guarded(func() []*ctypes.CPUPlan {
-			return schedule.GetCPUPlans(info, origin, c.base, c.maxFrag, req)
-		})
+		var o outcome[[]*ctypes.CPUPlan]
+		if c.isolate {
+			o = *c.pre
+			r.Count("isolated")
+		} else {
+			o = guarded(func() []*ctypes.CPUPlan {
+				return schedule.GetCPUPlans(info, origin, c.base, c.maxFrag, req)
+			})
+		}
 		var obs, class string
 		var tags []string
 		nplans := 0
@@ -613,6 +760,7 @@ func runPlans(t *testing.T) {
 		tg["affinity"] = len(c.origin) > 0
 		tg["huge_request"] = c.cpu*float64(c.base) >= 9.2e18
 		tg["stream"] = "plans"
+		tg["isolated"] = c.isolate
 		r.Count("outcome=" + class)
 		r.Count(fmt.Sprintf("cores=%d", len(c.info.Capacity.CPUMap)))
 		r.Count(fmt.Sprintf("numa_nodes=%d", len(c.info.Capacity.NUMAMemory)))
@@ -632,16 +780,36 @@ func runPlans(t *testing.T) {
 		r.Add(term, desc, tg, nplans > 0)
 	}
 
+	type queued struct {
+		c      planCase
+		stream string
+		kind   int // 0 corpus, 1 random, 2 run last
+	}
+	var queue []queued
+	kind := 0
 	first, last := planCorpus()
 	for _, c := range first {
-		emit(c, "corpus")
+		queue = append(queue, queued{c, "corpus", kind})
+	}
+	// huge but valid bound requests (whole, fractional, with NUMA, with an origin map, max-share limited):
+	// each in its own memory-capped child process
+	for i, v := range hugeRequests {
+		queue = append(queue, queued{planCase{isolate: true, info: mkNode(4, 100, map[string]int{"0": 50}, 1000, 0), base: 100, maxFrag: -1, cpu: v, k: -1, label: "c06-huge-request"}, "corpus", 0})
+		switch i % 3 {
+		case 0:
+			queue = append(queue, queued{planCase{isolate: true, info: withNUMA(mkNode(4, 100, nil, 1000, 0), 2, 500), base: 100, maxFrag: 2, cpu: v + 0.25, mem: 10, k: -1, label: "c06-huge-request-numa"}, "corpus", 0})
+		case 1:
+			queue = append(queue, queued{planCase{isolate: true, info: mkNode(3, 300, nil, 1000, 0), origin: ctypes.CPUMap{"1": 100}, base: 100, maxFrag: -1, cpu: v, k: -1, label: "c06-huge-request-affinity"}, "corpus", 0})
+		default:
+			queue = append(queue, queued{planCase{isolate: true, info: mkNode(2, 1000, nil, 1000, 0), base: 1000, maxFrag: -1, cpu: v / 7, k: -1, label: "c06-huge-request-base1000"}, "corpus", 0})
+		}
 	}
 	n := r.N(900, 20000)
 	maxCores := 12
 	if r.Tier != "quick" {
 		maxCores = 16
 	}
-	for i := 0; i < n && timeouts < 3; i++ {
+	for i := 0; i < n; i++ {
 		base := g.pick(100, 100, 100, 100, 10, 1000, 1, 7)
 		malformed := i%10 == 9
 		info := g.node(base, nodeOpts{maxCores: maxCores, malformed: malformed})
@@ -674,14 +842,42 @@ func runPlans(t *testing.T) {
 		if malformed {
 			c.label = "malformed"
 		}
-		emit(c, c.label)
+		if !malformed && g.chance(0.02) {
+			// a finite request between 1e9 and ~8e18 cores
+			c.cpu, c.k = math.Pow(10, 9+9.9*g.r.Rng.Float64()), -1
+			if g.chance(0.5) {
+				c.cpu = math.Floor(c.cpu)
+			}
+			c.isolate = true
+			c.label = "huge"
+		}
+		queue = append(queue, queued{c, c.label, 1})
 	}
+	kind = 2
 	for _, c := range last {
-		if timeouts < 3 {
-			emit(c, "corpus")
+		queue = append(queue, queued{c, "corpus", kind})
+	}
+	// phase 2: the isolated cases in one child process, then everything in order
+	var iso []planCase
+	for _, q := range queue {
+		if q.c.isolate {
+			iso = append(iso, q.c)
 		}
 	}
-	r.Finish("corpus of finding witnesses and boundary cases, then random nodes (1-12 cores quick / 1-16 thorough, uniform / multi-share / odd per-core shares, partially used cores, 0-3 NUMA nodes with random memory split, memory usage), requests k/base on the decimal grid (whole, fragment, mixed, classic bad decimals) and off-grid, max fragment cores in {-1,1,2,3,n}, affinity maps; every 10th case malformed (Validate-rejected nodes, base 0, negative request/max share). Non-trivial = at least one plan returned")
+	isoRes := isolatedBatch(iso)
+	ni := 0
+	for _, q := range queue {
+		if q.c.isolate {
+			q.c.pre = &isoRes[ni]
+			ni++
+		}
+		if q.kind == 1 && timeouts >= 3 {
+			continue // an implementation that hangs: stop feeding it random cases
+		}
+		emit(q.c, q.stream)
+	}
+
+	r.Finish("corpus of finding witnesses and boundary cases, then random nodes (1-12 cores quick / 1-16 thorough, uniform / multi-share / odd per-core shares, partially used cores, 0-3 NUMA nodes with random memory split, memory usage), requests k/base on the decimal grid (whole, fragment, mixed, classic bad decimals) and off-grid, max fragment cores in {-1,1,2,3,n}, affinity maps; every 10th case malformed (Validate-rejected nodes, base 0, negative request/max share); huge finite requests (1e9 .. 1e300 cores, around 2^31, 2^53, MaxInt64/base; corpus + 2% of the random cases) run in a child process with a 6 GB address-space cap and a 20 s deadline, a crash of the child being an observed outcome. Non-trivial = at least one plan returned")
 }
 
 func runValidate(t *testing.T) {
@@ -766,6 +962,10 @@ func deployCorpus() (first, last []deployCase) {
 	for _, hc := range [][2]int64{{1 << 62, 4}, {1 << 61, 8}, {1 << 60, 16}, {1<<62 + 5, 4}, {1 << 62, 2}, {1 << 40, 3}} {
 		first = append(first, deployCase{info: mkNode(4, 100, nil, 8<<30, 0), base: 100, maxShare: -1, count: int(hc[1]),
 			raw: map[string]any{"cpu-request": 0.5, "memory-request": hc[0]}, k: 50, label: "c04-huge-memory-product"})
+	}
+	// huge but valid bound requests through the plugin (the full range runs in the plans stream, isolated)
+	for _, v := range []float64{4e13, 1e15, 9e16, 9.2e18} {
+		first = append(first, deployCase{info: mkNode(4, 100, nil, 1000, 0), base: 100, maxShare: -1, count: 1, raw: bind(v, 0), k: -1, label: "c06-huge-request"})
 	}
 	last = []deployCase{
 		{info: mkNode(2, 100, nil, 1000, 0), base: 100, maxShare: -1, count: 1, raw: bind(0.001, 0), k: -1, label: "c06-sub-piece"},
